@@ -5,6 +5,7 @@ package main
 
 import (
 	"fmt"
+	"hash/fnv"
 	"math/big"
 	"math/rand"
 	"os"
@@ -78,8 +79,11 @@ type conc struct {
 	rnd  *rand.Rand
 }
 
-func newConc(seed int64, n int) *conc {
-	return &conc{pick: map[string]string{}, rnd: rand.New(rand.NewSource(seed*1000003 + int64(n)))}
+// the choice depends on the seed and on the case itself (not on its position in a list)
+func newConc(seed int64, key string) *conc {
+	h := fnv.New64a()
+	h.Write([]byte(key))
+	return &conc{pick: map[string]string{}, rnd: rand.New(rand.NewSource(seed*1000003 + int64(h.Sum64()>>1)))}
 }
 
 func (c *conc) num(class string) string {
@@ -219,7 +223,7 @@ func (b *builder) json(v *Val) string {
 
 // build turns a case into a probe command.
 func build(sch *Schema, cs *Case, seed int64) (ur.C02Case, *conc) {
-	b := &builder{c: newConc(seed, cs.N), sch: sch}
+	b := &builder{c: newConc(seed, caseKey(cs)), sch: sch}
 	out := ur.C02Case{ID: cs.N, Field: "f"}
 	sel := "f: " + cs.Shape
 	switch cs.Src.K {
@@ -308,7 +312,7 @@ func renderSDL(s *Schema) string {
 		names = append(names, n)
 	}
 	sort.Strings(names)
-	b := &builder{c: newConc(0, 0), sch: s}
+	b := &builder{c: newConc(0, ""), sch: s}
 	for _, n := range names {
 		_, isInput := s.Inputs[n]
 		switch {
